@@ -46,7 +46,9 @@ theorem isReadableC_fst (n : Nat) (d : B) (p : Nat) : (isReadableC n d p).1 = .o
 
 theorem readPyC_fst (n : Int) (d : B) (p : Nat) : (readPyC n d p).1 = readPy n d p := by
   unfold readPyC readPy
-  split <;> rfl
+  split
+  · rfl
+  · split <;> rfl
 
 theorem readUC_fst (w : Nat) (d : B) (p : Nat) : (readUC w d p).1 = readU w d p := by
   unfold readUC readU
@@ -92,18 +94,20 @@ theorem readLenBlockC_fst (skip w pad : Nat) (d : B) (p : Nat) :
     | ok x1 =>
       obtain ⟨n, p1⟩ := x1
       simp only
-      rw [bind_fst, readUpToC_fst]
-      cases readUpTo n d p1 with
-      | error e => rfl
-      | ok x2 =>
-        obtain ⟨x, p2⟩ := x2
-        simp only
-        split
-        · rfl
-        · rw [bind_fst, readPaddingC_fst]
-          cases readPadding n pad d p2 with
-          | error e => rfl
-          | ok x3 => rfl
+      split
+      · rfl
+      · rw [bind_fst, readUpToC_fst]
+        cases readUpTo n d p1 with
+        | error e => rfl
+        | ok x2 =>
+          obtain ⟨x, p2⟩ := x2
+          simp only
+          split
+          · rfl
+          · rw [bind_fst, readPaddingC_fst]
+            cases readPadding n pad d p2 with
+            | error e => rfl
+            | ok x3 => rfl
 
 theorem readPascalC_fst (pad : Nat) (d : B) (p : Nat) : (readPascalC pad d p).1 = readPascal pad d p := by
   unfold readPascalC readPascal
@@ -412,7 +416,9 @@ theorem layerInfo_fst (v : Nat) (d : B) (p : Nat) : (PsdCost.LayerInfo.decC v d 
       | error e => rfl
       | ok x => rfl
   dsimp only
-  split <;> rfl
+  split
+  · split <;> rfl
+  · rfl
 
 theorem globalMask_fst (d : B) (p : Nat) : (PsdCost.GlobalLayerMaskInfo.decC d p).1 = GlobalLayerMaskInfo.dec d p := by
   unfold PsdCost.GlobalLayerMaskInfo.decC GlobalLayerMaskInfo.dec
@@ -444,10 +450,12 @@ theorem layerAndMask_fst (v : Nat) (d : B) (p : Nat) : (PsdCost.LayerAndMask.dec
   unfold PsdCost.LayerAndMask.decC LayerAndMask.dec
   refine erase_bind (readUC_fst ..) fun ⟨length, p⟩ => ?_
   dsimp only
-  refine erase_bind ?_ fun ⟨x, _⟩ => rfl
-  split
-  · rfl
-  · exact layerAndMaskBody_fst ..
+  refine erase_bind ?_ fun ⟨x, _⟩ => ?_
+  · split
+    · rfl
+    · exact layerAndMaskBody_fst ..
+  dsimp only
+  split <;> rfl
 
 theorem imageData_fst (d : B) (p : Nat) : (PsdCost.ImageData.decC d p).1 = ImageData.dec d p := by
   unfold PsdCost.ImageData.decC ImageData.dec
